@@ -4,6 +4,7 @@ import Driver.Object
 import Driver.Render
 import Driver.Fetch
 import Driver.StyleOps
+import Driver.PubOps
 
 /-
   One function per op of the line protocol.  Each takes the op's JSON (which also carries the
@@ -133,6 +134,7 @@ def dispatch (j : Json) : Except String Res := do
   | "statusline" | "ctline" | "locline" | "headers" => jtpLineOp op j
   | "fetchseq" => fetchSeqOp j
   | "webfinger" => webfingerOp j
+  | "pubworld" => pubWorldOp j
   | "paging" => pagingOp j
   | "splice" => spliceOp j
   | "history" => historyOp j
